@@ -250,3 +250,22 @@ pub fn hashmap_entry_or_default_extend(m: &mut HashMap<String, Vec<String>>, key
     ensures final(m)@ == old(m)@.insert(key, final(m)@[key]),
             final(m)@[key]@ == (if old(m)@.contains_key(key) { old(m)@[key]@ + values@ } else { values@ }),
 { unimplemented!() }
+
+/// `s.replace(c, "")`: every occurrence of the (ASCII) char removed
+#[verifier::external_body]
+pub fn str_remove_char(s: &str, c: char) -> (r: String)
+    requires (c as u32) < 128
+    ensures str_bytes(r@) == remove_byte(s.spec_bytes(), c as u8)
+{ unimplemented!() }
+
+/// `s.split_at(mid)` on ASCII text (every index is a char boundary)
+#[verifier::external_body]
+pub fn str_split_at_ascii<'a>(s: &'a str, mid: usize) -> (r: (&'a str, &'a str))
+    requires all_ascii(s.spec_bytes()), mid <= s.spec_bytes().len()
+    ensures r.0.spec_bytes() == s.spec_bytes().subrange(0, mid as int), r.1.spec_bytes() == s.spec_bytes().subrange(mid as int, s.spec_bytes().len() as int)
+{ unimplemented!() }
+/// `String::as_str` used where a String is passed for &str (deref)
+#[verifier::external_body]
+pub fn string_as_str(s: &String) -> (r: &str)
+    ensures r.spec_bytes() == str_bytes(s@), r@ == s@
+{ unimplemented!() }
